@@ -746,3 +746,6 @@ add('C10.content_of_tracked_only', 'C10', [(CAL, "          tfl_interpreter_util
 add('C08.content_of_tracked_only', 'C08', [(CAL, "          tfl_interpreter_utils.get_tensor_name_to_content_map(\n              self._tfl_interpreter, subgraph_index\n          )", "          {k: v for k, v in tfl_interpreter_utils.get_tensor_name_to_content_map(\n              self._tfl_interpreter, subgraph_index\n          ).items() if k in self._model_qsvs}"),
      ('algorithms/uniform_quantize/naive_min_max_quantize.py', "    tensor_name = tfl_flatbuffer_utils.get_tensor_name(tensor)\n    tensor_content = tensor_content_map[tensor_name]", "    tensor_name = tfl_flatbuffer_utils.get_tensor_name(tensor)\n    if tensor_name not in tensor_content_map:\n      return\n    tensor_content = tensor_content_map[tensor_name]")],
     'C08.R7', 'static-range default recipes fail on a graph whose input touches only an unsupported op (seeded b8-C08)')
+
+add('C01.replacement_shift_late', 'C01', (TP, "        self._first_original_op_at_or_after(\n            transformation_inst.subgraph_id, trans_info.op_id\n        ),", "        self._first_original_op_at_or_after(\n            transformation_inst.subgraph_id,\n            trans_info.op_id + (1 if instruction.transformation in self._op_replacement_transformations else 0),\n        ),"),
+    'C01.R14', 'after an op replacement the id map is shifted from one position later: the replaced operator maps to the first op of its pattern (seeded b8-C01)')
